@@ -9,6 +9,7 @@ import copy
 import json
 import os
 import sqlite3
+import numpy
 
 from pgverif import gen
 from pgverif.core import close
@@ -153,9 +154,11 @@ def _run_registry(case, ctx):
                                       owner=owner, designation=v, aliases=list(obj.alias)[:8])
                         break
     for s in strings:
-        for v in _variants(s):
-            ctx.case(["registry", v])
-            ctx.count("lookups", case["source"])
+        # (the designation as plain text in several letter cases, and as an element of a numpy string array / a pandas column:
+        # a str subclass is a string)
+        for v in list(_variants(s)) + [numpy.array([s, "x"])[0]]:
+            ctx.case(["registry", v, type(v).__name__])
+            ctx.count("lookups", case["source"] + ("" if type(v) is str else "/" + type(v).__name__))
             try:
                 found = pygaps.Adsorbate.find(v)
             except Exception as exc:
